@@ -9,8 +9,13 @@ PluginManager, with a real PubSub, are driven exactly as a run drives them
 plugin's on_event_in_process for every event, then on_end_run) on
   * well-formed streams generated from the C09 grammar (traces interleaved, shared
     counters, stdout, frame ids that hit both branches of the trace_call_end notice),
+  * "long run" streams (same grammar): > 256 traces started and ended one after the other and a
+    few concurrently, trace / trace-call / prompt numbers passing 256, run numbers >= 257, and
+    small streams whose numbers start above 256 ("late in a long run"),
   * streams recorded from real runs of nextline.spawned.main (harness/child.py),
   * a few corrupted streams (the model must also agree there, including "raised"),
+every event handed to the hook as a FRESH object graph (pickle round trip, as the
+multiprocessing queue of the real relay does: no int object is shared between two events),
 each truncated at every prefix length (generated) / at sampled prefix lengths (recorded)
 to model a kill, with real subscribers attached at random points -- the subscribe CALL
 (`pubsub.subscribe(key, last=...)`, the call Nextline makes) at one random point and the
@@ -27,6 +32,7 @@ from __future__ import annotations
 import asyncio
 import datetime
 import json
+import pickle
 from pathlib import Path
 
 from .. import child
@@ -55,7 +61,7 @@ ASSUMPTIONS = [
 
 # ---------------------------------------------------------------- stream generator (from the grammar)
 
-def gen_wf_stream(rng, run_no=1, max_traces=4, max_calls=5):
+def gen_wf_stream(rng, run_no=1, max_traces=4, max_calls=5, base=0):
     """A complete well-formed stream: per-trace structured programs interleaved at random,
     numbers from shared counters at emission time."""
     nt = rng.randint(1, max_traces)
@@ -92,12 +98,13 @@ def gen_wf_stream(rng, run_no=1, max_traces=4, max_calls=5):
         s.append(('OnEndTrace',))
         seqs.append(s)
     # trace numbers: a permutation so that start order differs from numeric order
-    tnos = list(range(1, nt + 1))
+    # `base`: numbers handed out so far in the run (late in a long run all numbers are large)
+    tnos = list(range(base + 1, base + nt + 1))
     if rng.random() < 0.5:
         rng.shuffle(tnos)
     started = []
     pos = [0] * nt
-    ccount = pcount = 0
+    ccount = pcount = base
     cur_call = [None] * nt
     cur_prompt = [None] * nt
     cur_fid = [None] * nt
@@ -130,6 +137,64 @@ def gen_wf_stream(rng, run_no=1, max_traces=4, max_calls=5):
         elif ty == 'OnWriteStdout':
             e.update(text=rng.choice(['a\n', 'b\n']))
         events.append(e)
+    return events
+
+
+def gen_long_run_stream(rng, run_no=1000, n_traces=300):
+    """A complete well-formed stream of a LONG run (what a script starting hundreds of short-lived
+    threads produces): the main trace 1 stays live; traces 2..n_traces start and end one after the
+    other, a few of them overlapping (ended in a different order than started); numbers from the
+    shared counters, so trace numbers, trace-call numbers and prompt numbers all pass 256 while the
+    run goes on; run number >= 1000.  Generated as an interleaving of structured per-trace programs
+    (the proved emitter model), hence well formed."""
+    events = []
+    cc = [0]
+    pc = [rng.choice([0, 150])]          # prompts handed out before (not every trace prompts)
+
+    def ev(ty, tn, **kw):
+        events.append({'type': ty, 'run_no': run_no, 'trace_no': tn, **kw})
+
+    def start(tn):
+        ev('OnStartTrace', tn, thread_no=tn, task_no=None)
+
+    def call(tn, prompts):
+        cc[0] += 1
+        c = cc[0]
+        fid = 7000 + tn
+        ev('OnStartTraceCall', tn, trace_call_no=c, file_name='<string>', line_no=1 + tn % 7, frame_object_id=fid, event='line')
+        if prompts:
+            ev('OnStartCmdloop', tn, trace_call_no=c)
+            for _ in range(prompts):
+                pc[0] += 1
+                ev('OnStartPrompt', tn, trace_call_no=c, prompt_no=pc[0], prompt_text='(Pdb) ', file_name='<string>', line_no=1,
+                   frame_object_id=fid, event='line')
+                ev('OnEndPrompt', tn, trace_call_no=c, prompt_no=pc[0], command='next')
+            ev('OnEndCmdloop', tn, trace_call_no=c)
+        ev('OnEndTraceCall', tn, trace_call_no=c)
+
+    start(1)
+    call(1, 1)
+    tn = 2
+    while tn <= n_traces:
+        k = rng.choice([1, 1, 1, 1, 2, 3]) if tn > 240 else rng.choice([1, 1, 1, 1, 1, 1, 1, 3])
+        group = list(range(tn, min(tn + k, n_traces + 1)))
+        tn += len(group)
+        for t in group:
+            start(t)
+        order = list(group)
+        rng.shuffle(order)
+        for t in order:
+            call(t, 1 if (t > 240 or rng.random() < 0.2) else 0)
+            if rng.random() < 0.1:
+                ev('OnWriteStdout', t, text='x\n')
+        ends = list(group)
+        rng.shuffle(ends)
+        for t in ends:
+            ev('OnEndTrace', t)
+        if rng.random() < 0.1:
+            call(1, 0)
+    call(1, 1)
+    ev('OnEndTrace', 1)
     return events
 
 
@@ -259,7 +324,9 @@ async def drive(run_no: int, events: list[dict], plan: dict) -> dict:
     attach(-1)
     await yields(-1)
     for i, d in enumerate(events):
-        ev = make_event(d)
+        # the relay receives every event through a multiprocessing queue: a FRESH object graph per
+        # event (no object, not even an int > 256, is shared between two events)
+        ev = pickle.loads(pickle.dumps(make_event(d)))
         try:
             await hook.ahook.on_event_in_process(context=ctx, event=ev)
         except Exception:
@@ -509,12 +576,12 @@ def _run(ctx, work, corr: Corr):
             key = json.dumps(evs, sort_keys=True, default=str)
             if key not in seen:
                 seen.add(key)
-                if any(e['type'] == 'OnStartPrompt' for e in evs) and (not evs or evs[-1]['type'] != 'OnEndTrace' or kind != 'full'):
+                if any(e['type'] == 'OnStartPrompt' for e in evs) and (not evs or evs[-1]['type'] != 'OnEndTrace' or kind not in ('full', 'long-full')):
                     corr.distinct_nontrivial += 1
             terms.append(case_term(r, evs, obs))
             meta.append((kind, r, evs, plan, origin))
             if kind != 'corrupted':
-                for sig, what in oracle_run(r, evs, obs):
+                for sig, what in oracle_run(r, evs, obs)[:3]:
                     corr.violations.append(Violation(f'registrars:{sig}', what, {
                         'run_no': r, 'events': evs, 'plan': _plan_json(plan), 'origin': origin,
                         'observed': [[k, ('END' if v is END else repr(v))] for k, v in obs['log']][:200]}))
@@ -557,19 +624,28 @@ def _plan_from_json(j):
             'yields': {int(k): v for k, v in j.get('yields', {}).items()}}
 
 
-def build_work(ctx, n_gen, n_real, real_prefixes, n_corrupt):
+def build_work(ctx, n_gen, n_real, real_prefixes, n_corrupt, n_long=1, long_kills=2):
     rng = ctx.rng
     work = []
     for p in load_corpus():
         work.append(('corpus', p['run_no'], p['events'], _plan_from_json(p.get('plan', {})), 'corpus'))
     for i in range(n_gen):
-        r = rng.choice([1, 1, 3])
-        evs = gen_wf_stream(rng, r, max_traces=rng.choice([1, 2, 3, 4]), max_calls=rng.choice([1, 2, 3, 4]))
+        r = rng.choice([1, 1, 3, 1000])
+        # one stream in four is "late in a long run": every number is above the small-int range
+        base = rng.choice([0, 0, 0, 255, 300, 100000]) if i % 4 == 3 else 0
+        evs = gen_wf_stream(rng, r, max_traces=rng.choice([1, 2, 3, 4]), max_calls=rng.choice([1, 2, 3, 4]), base=base)
         for n in range(len(evs) + 1):
             work.append(('full' if n == len(evs) else 'killed', r, evs[:n], gen_plan(rng, evs[:n]), f'generated#{i}'))
         if i < n_corrupt:
             cor = c09.corrupt(rng, evs)
             work.append(('corrupted', r, cor, gen_plan(rng, cor, 0.2), f'generated#{i}:corrupted'))
+    # long runs: > 256 traces / trace calls / prompts, run number 1000+ (full + a few kills each)
+    for i in range(n_long):
+        r = rng.choice([1000, 1000, 257, 70000])
+        evs = gen_long_run_stream(rng, r, n_traces=rng.randint(290, 320))
+        cuts = {len(evs)} | {rng.randrange(len(evs) * 3 // 4, len(evs)) for _ in range(long_kills)}
+        for n in sorted(cuts):
+            work.append(('long-full' if n == len(evs) else 'long-killed', r, evs[:n], gen_plan(rng, evs[:n]), f'long-run#{i}'))
     if n_real:
         jobs = [c09.gen_job(rng, k, 'quick') for k in range(n_real)]
         for j in jobs:
@@ -597,7 +673,7 @@ def correspond(ctx) -> Corr:
     if ctx.tier == 'quick':
         work = build_work(ctx, n_gen=110, n_real=24, real_prefixes=6, n_corrupt=40)
     else:
-        work = build_work(ctx, n_gen=1500, n_real=300, real_prefixes=12, n_corrupt=400)
+        work = build_work(ctx, n_gen=1500, n_real=300, real_prefixes=12, n_corrupt=400, n_long=6, long_kills=4)
     ctx.log(f'{len(work)} cases')
     _run(ctx, work, corr)
     if work:
